@@ -1,12 +1,12 @@
 import KcpVerif.Model.Kcp
-import KcpVerif.Lemmas.KcpFlush
+import KcpVerif.Lemmas.KcpLiveFlush
 import KcpVerif.Lemmas.KcpLive
 import KcpVerif.Lemmas.KcpState
 import KcpVerif.Lemmas.KcpTimer
 import KcpVerif.Lemmas.KcpMove
 /-! C02 — eventual delivery: a healed network always drains the backlog. -/
 namespace KcpVerif.Props
-open KcpVerif KcpVerif.Gen KcpVerif.Kcp
+open KcpVerif KcpVerif.Gen KcpVerif.Kcp KcpVerif.Live
 
 /-- cumulative acknowledgement: `una` removes exactly the leading segments it covers, so the
 send buffer only ever shrinks from the front and what remains is a suffix -/
@@ -108,7 +108,7 @@ theorem C02_retx_armed (k : Kcp) (now : U32) :
     refine ⟨hne, fun hp => ?_⟩
     rw [flush_panic] at hp
     obtain ⟨pre, post, hw⟩ := hsent s hs ha hne ((grow_F5 k true now).noPanic hp)
-    obtain ⟨t, ht⟩ := (grow_F5 k true now).wire
+    obtain ⟨t, ht⟩ := (grow_F5 k true now).liveWire
     exact ⟨pre, post ++ t, by rw [flush_wire, ht, hw]; simp⟩
   · intro s' hs' ha' h0 h31
     rw [hsb, hdone] at hs'
@@ -336,7 +336,7 @@ example : (emit { k := Kcp.new 1 } { xmit := 20 }).k.state = 0xFFFFFFFF#32 := by
 
 /-! ### `retx_armed` as an invariant of reachable states
 
-`Op`, `step`, `run` (Lemmas/KcpOps.lean): the state-changing operations with all their arguments.
+`Op`, `step`, `run` (Lemmas/KcpLiveOps.lean): the state-changing operations with all their arguments.
 `TimerInv k` (Lemmas/KcpTimer.lean): every segment of `snd_buf` that has been sent (`xmit ≠ 0`) has
 `resendts = ts + rto`, and no segment of `snd_queue` has been sent. -/
 
